@@ -127,7 +127,7 @@ m = {
    "guard": "rva_verif",
    "enable": "RUSTFLAGS='--cfg rva_verif --check-cfg cfg(rva_verif)' (set by /verif/harness/.cargo/config.toml and lib/vlib.py build_cli)",
    "baseline_off_cmd": "cd /repo && cargo test --workspace --no-fail-fast --offline",
-   "source_commits": ["e4948f8", "13ffbe8"],
+   "source_commits": ["e4948f8", "13ffbe8", "6c96580"],
    "add_only": True,
  },
  "engines": [
